@@ -170,6 +170,19 @@ def nmea_items(draw):
     return item("nmea", codec.nmea_frame(",".join([talker + msgid] + fields)), "gen")
 
 
+_TRICKY = []
+
+
+def tricky_tiny_rtcm():
+    if not _TRICKY:
+        for n in (1, 2):
+            for v in range(256 ** n):
+                f = codec.rtcm_frame(v.to_bytes(n, "big"))
+                if any(b in f[-3:] for b in (0xB5, 0x24, 0xD3)) and (n == 1 or v % 37 == 0):
+                    _TRICKY.append(f)
+    return _TRICKY
+
+
 @st.composite
 def rtcm_items(draw):
     kind = draw(st.sampled_from(["corpus", "corpus", "gen", "badcrc", "empty", "tiny", "big", "carrier"]))
@@ -188,6 +201,10 @@ def rtcm_items(draw):
     if kind == "empty":
         return item("rtcm", codec.rtcm_frame(b""), "empty")
     if kind == "tiny":
+        if draw(st.booleans()):
+            # payloads of 0..2 bytes whose CRC bytes contain a frame-start byte (b5, 24, d3): if
+            # the rejected frame is not skipped as a unit, the reader synchronises inside it
+            return item("rtcm", draw(st.sampled_from(tricky_tiny_rtcm())), "tiny")
         return item("rtcm", codec.rtcm_frame(draw(st.binary(min_size=1, max_size=2))), "tiny")
     mtype = draw(st.sampled_from([1005, 1006, 1007, 1033, 1074, 1077, 1084, 1087, 1094, 1097, 1124, 1127,
                                   1230, 1019, 1020, 4072, 1001, 1002, 999, 4095, 0]))
